@@ -123,14 +123,16 @@ Record rd_in := {
 Record rd_obs := {
   ro_dispatched : list (N * (N * bytes));  (* (channel handler, (frame type, payload)) in order *)
   ro_carries : list nat;                   (* len(data_in) after every chunk *)
-  ro_carry : bytes                         (* data_in at the end *)
+  ro_carry : bytes;                        (* data_in at the end *)
+  ro_errors : nat                          (* errors recorded on the connection meanwhile *)
 }.
 
 Definition disp_eqb (a b : N * (N * bytes)) : bool :=
   (fst a =? fst b) && (fst (snd a) =? fst (snd b)) && bytes_eqb (snd (snd a)) (snd (snd b)).
 Definition rd_obs_eqb (a b : rd_obs) : bool :=
   list_eqb disp_eqb (ro_dispatched a) (ro_dispatched b) &&
-  list_eqb Nat.eqb (ro_carries a) (ro_carries b) && bytes_eqb (ro_carry a) (ro_carry b).
+  list_eqb Nat.eqb (ro_carries a) (ro_carries b) && bytes_eqb (ro_carry a) (ro_carry b) &&
+  Nat.eqb (ro_errors a) (ro_errors b).
 
 (* The property on an observation, independent of how the stream was cut:
    what was dispatched plus what is still buffered accounts for exactly the
@@ -150,7 +152,7 @@ Definition rd_model (i : rd_in) : rd_obs :=
   let '(fs, carry) := feed all_decodable [] (ri_chunks i) in
   {| ro_dispatched := routed (ri_registered i) fs;
      ro_carries := feed_carries all_decodable [] (ri_chunks i);
-     ro_carry := carry |}.
+     ro_carry := carry; ro_errors := 0 |}.
 
 Definition rd_prop_ok (i : rd_in) (o : rd_obs) : bool :=
   let whole := concat (ri_chunks i) in
@@ -158,7 +160,8 @@ Definition rd_prop_ok (i : rd_in) (o : rd_obs) : bool :=
   | Some (fs, tail) =>
     bytes_eqb whole (enc_all fs ++ tail) &&                 (* the case is what it claims to be *)
     list_eqb disp_eqb (ro_dispatched o) (routed (ri_registered i) fs) &&
-    bytes_eqb (ro_carry o) tail
+    bytes_eqb (ro_carry o) tail &&
+    Nat.eqb (ro_errors o) 0        (* a conforming stream never poisons the connection *)
   | None =>
     let '(fs, rest) := read_buffer all_decodable (S (length whole)) whole in
     list_eqb disp_eqb (ro_dispatched o) (routed (ri_registered i) fs) &&
